@@ -64,7 +64,7 @@ func (vc *VC) addrBase(v ssa.Value) (string, types.Type, bool) {
 		return "E:" + typeStr(et), et, true
 	case *ssa.Alloc:
 		et := a.Type().(*types.Pointer).Elem()
-		if _, ok := isStruct(et); ok {
+		if _, ok := isStruct(et); ok && a.Heap {
 			return "F:" + structName(et), et, true
 		}
 		return "L:", et, true // local cell: handled by name at execution; conservative marker
@@ -137,7 +137,7 @@ func (vc *VC) blockWrites(b *ssa.BasicBlock, wk *writeSet, depth int, visiting m
 		case *ssa.Alloc:
 			wk.allocs = true
 			et := x.Type().(*types.Pointer).Elem()
-			if _, ok := isStruct(et); ok {
+			if _, ok := isStruct(et); ok && x.Heap {
 				var ks []string
 				vc.keysOfType("F:"+structName(et), et, &ks)
 				for _, k := range ks {
@@ -180,7 +180,12 @@ func (vc *VC) blockWrites(b *ssa.BasicBlock, wk *writeSet, depth int, visiting m
 	}
 }
 
+// localKey: cells of address-taken locals. Non-escaping ones (Alloc.Heap == false) can never be changed by a callee
+// and survive havoc-everything; escaping ones ("LH:") are havocked like the heap.
 func localKey(a *ssa.Alloc) string {
+	if a.Heap {
+		return fmt.Sprintf("LH:%s.%s", sanitize(a.Parent().Name()), a.Name())
+	}
 	return fmt.Sprintf("L:%s.%s", sanitize(a.Parent().Name()), a.Name())
 }
 
@@ -724,7 +729,7 @@ func (f *frame) frameCheck(cur *State, a adv, pos token.Pos) {
 	var ks []string
 	vc.keysOfType(a.base, a.typ, &ks)
 	for _, k := range ks {
-		if strings.HasPrefix(k, "L:") {
+		if strings.HasPrefix(k, "L:") || strings.HasPrefix(k, "LH:") {
 			continue
 		}
 		var ix Term
@@ -778,7 +783,7 @@ func (f *frame) frameCheckCall(cur *State, callee string, cms *modSet, pos token
 		return
 	}
 	for k := range cms.keyAll {
-		if strings.HasPrefix(k, "L:") {
+		if strings.HasPrefix(k, "L:") || strings.HasPrefix(k, "LH:") {
 			continue // locals of the verified function are never part of its frame
 		}
 		if !ms.keyAll[k] {
@@ -1155,6 +1160,40 @@ func (f *frame) applyContract(ct *Contract, calleeName string, params []paramInf
 		}
 	}
 	if ct.Logged {
+		// extra recorded values: pre-state expressions at argument positions 10.., post-state at result positions 10..
+		n0 := vc.heapGet(cur, "Z:n", "Int")
+		for i, ex := range ct.LogPre {
+			v, err := sc.eval(ex)
+			if err != nil {
+				vc.errs = append(vc.errs, fmt.Sprintf("%s: %v", ct.Line, err))
+				continue
+			}
+			scp := vc.newScope(pre, pre)
+			scp.vars = sc.vars
+			v, err = scp.eval(ex)
+			if err != nil {
+				continue
+			}
+			if s, ok := v.sym.(sv); ok {
+				if sort := vc.eng.sortOf(v.typ); sort != "" {
+					vc.storeScalar(cur, fmt.Sprintf("Z:a%d:%s", 10+i, sort), []Term{n0}, sort, s.t)
+				}
+			}
+		}
+		for i, ex := range ct.LogPost {
+			scp := vc.newScope(cur, pre)
+			scp.vars = sc.vars
+			v, err := scp.eval(ex)
+			if err != nil {
+				vc.errs = append(vc.errs, fmt.Sprintf("%s: %v", ct.Line, err))
+				continue
+			}
+			if s, ok := v.sym.(sv); ok {
+				if sort := vc.eng.sortOf(v.typ); sort != "" {
+					vc.storeScalar(cur, fmt.Sprintf("Z:r%d:%s", 10+i, sort), []Term{n0}, sort, s.t)
+				}
+			}
+		}
 		f.logCall(cur, ct, params, args, rtv)
 	} else if ms.all {
 		// an unlogged callee that may do anything may also run logged functions
